@@ -182,8 +182,8 @@ CLAUSES = {
             "containers left without content; multi-version; exactness of the removed set": "correspondence + judge abandoned-field-removed (reading R3)"},
     "C04": {"force never conflicts; unforced success = forced; conflict non-empty, other managers only; the conflict list is exactly the other managers' paths the comparison reports modified or added (identity converter)": "theorems",
             "the comparison itself": "C11 theorems; judge with an independent changed-leaf detection (resolver)"},
-    "C05": {"applier owns exactly its (filtered) configuration; others only shrink, keep version/status; no empty record; updater equation; exact change of every other record after Update and after Apply; ManagedFields.Equals / Difference laws": "theorems (managed fields sorted by manager = Go map invariant)",
-            "the same through the implementation": "judges against an independent diff; hlp domain"},
+    "C05": {"applier owns exactly its (filtered) configuration; others only shrink, keep version/status; no empty record; updater equation; exact change of every other record after Update and after Apply, under any per-version ignore configuration (comparison filtered with the filter of the record's own version; unfiltered form under the C19 invariant, refuted without it); ManagedFields.Equals / Difference laws": "theorems (managed fields sorted by manager = Go map invariant; identity converter)",
+            "the same through the implementation": "judges against an independent diff (each record under the configuration of its own version); under a real renaming converter the single-version run is the reference (mv domain); hlp domain"},
     "C06": {"along every history of Updates: live object valid, managed fields well formed, every owned path designates a node of the live object (independent resolver); one-step lemmas for Update and a first Apply": "theorems (Compare facts discharged from C11 exactness)",
             "apply with pruning; only conflict errors": "correspondence + judges (independent path resolver)",
             "typed operations total on accepted values": "theorems SMD.C13.*_ok_of_valid"},
@@ -216,7 +216,8 @@ CLAUSES = {
             "Set/Delete on reflected Go data at any depth: a successful operation changes exactly that entry of the library's reading (everything outside the container unchanged), incl. the replacement copy of a struct held in a Go map; outcome ok / refused / panic characterised": "theorems about the model ReflectSet.lean (C18Set), tied to the real Map.Set / Map.Delete by rfl.set / rfl.del; judge through encoding/json alone; known findings D20, D21",
             "reflection = encoding/json round trip on the Go family (reflectV vs jsonV: both total, Equal results, same keys, sorted fields)": "theorems about the two models (uint below 2^63: above it the code differs from encoding/json, known finding D23, refuted in the model); both models tied to the real NewValueReflect and encoding/json by rfl.conv / rfl.json",
             "equality/ordering/typed operations agree across representations; custom marshalers; JSON/YAML round trips": "correspondence + judges (external libraries)"},
-    "C19": {"filter algebra (exclude = recursive difference, include = compatible paths); actor never owns ignored paths; over all histories: records well formed, and every record respects the configuration of its own version (any mix of exclusion sets, include patterns and versions without an entry: reachable_respects_version_filter); ignored-only changes: no conflict, nothing taken": "theorems",
+    "C19": {"the merge of include patterns / matcher trees is correct: compatible with the merged matcher = compatible with one of the patterns (merge_patterns_spec, merge_trees_spec)": "theorems",
+            "filter algebra (exclude = recursive difference, include = compatible paths); actor never owns ignored paths; over all histories: records well formed, and every record respects the configuration of its own version (any mix of exclusion sets, include patterns and versions without an entry: reachable_respects_version_filter); ignored-only changes: no conflict, nothing taken": "theorems",
             "ignored values flow": "judges; known finding D8 (kernel-checked witness)"},
     "C20": {"records at missing versions dropped without effect": "theorems",
             "granular -> atomic reconcile": "correspondence + judge (cut at outermost atomic prefix, idempotent); theorems when present in the audit (C20Reconcile)",
